@@ -24,7 +24,12 @@ def answers(proj):
             names[p] = sorted(pm.get_attributes())
         except exceptions.ModuleSyntaxError:
             srcs[p], names[p] = "<syntax error>", []
-    return dict(files=files, pys=pys, mods=mods, srcs=srcs, names=names)
+    pkgs = {}
+    for d_ in ("d",):
+        r = proj.find_module(d_)
+        if r is not None and r.is_folder():
+            pkgs[d_] = sorted(proj.get_pymodule(r).get_attributes())
+    return dict(files=files, pys=pys, mods=mods, srcs=srcs, names=names, pkgs=pkgs)
 
 
 def replay(f):
